@@ -70,6 +70,10 @@ CHECKS['C19'] = ('4.C19', 'at / begin_of_line / end_of_line / line_at of memory_
                  'counters, with an independent line splitter and numeric pointer-range checks. Two recorded findings (D11 initial counters, C19_EOL2 two-byte policies) are excluded by narrow predicates '
                  'and re-confirmed on every run.')
 
+CHECKS['C17'] = ('4.C17', 'utf8_append_utf32 is proved over all 2^32 code points (true iff scalar value; appended bytes are the unique well-formed encoding per an independent Table 3-6/3-7 codec; nothing appended '
+                 'otherwise; prefix preserved) on a real std::string sink with libstdc++ append modelled on the SSO layout; unhex_char/unhex_string for all digit strings up to the type width; unescape_c/x/u and '
+                 'append_all; unescape_j for 1..3 (thorough 4) escapes with fully symbolic hex digits: throws iff a lone surrogate, else exact concatenation with pairs combined.')
+
 NOT_YET = {}
 
 
